@@ -111,6 +111,23 @@ CHECKS = {
 
 NOT_YET = "check not built yet in this round (planned, see DESIGN.md §6); not claimed"
 
+# variant families added after the eleventh round of seeded changes (DESIGN.md section 6, last block)
+ADDED_R11 = {
+ "C02": "a 140 000-byte message (35 body frames) through a queue of one entry while the server cancels the channel's consumer at any point.",
+ "C03": "the channel's topology declared with the nowait variants (queue, exchange, binding) before anything is consumed.",
+ "C04": "seqx backpressure (real threads, not an exploration): a publish / nowait call / synchronous call / listener registration made while the queue to the I/O thread (bound 1 and 2) is full must go through, once, behind the queued messages, when the I/O side takes the queue - 16 cases, one forced schedule each.",
+ "C05": "80 000 bytes buffered behind a peer that stopped reading when the server closes / a client exception is raised / the client closes; a server that resets the socket, breaks the pipe or stops reading right behind its Connection.Close (the close must still be reported as the server's).",
+ "C06": "the short closing session with the server hanging up behind its Close (end of stream or reset), in a pass of its own or in the same pass as the last byte, every cut.",
+ "C10": "channels closed by both sides at once, then re-opened by number and by the automatic allocation (two sequences).",
+ "C11": "a consumer on a recycled id opened by number while every id of the connection (channel_max 2) is in use, and one more open_channel(None).",
+ "C12": "all 40 320 orders of the eight ConnectionOptions builders, each with a non-default value, against the StartOk / TuneOk / Open built from them.",
+ "C16": "Connection.Close instead of OpenOk followed by a reset and / or a broken pipe.",
+ "C18": "a pile-up (the I/O thread held while both publishers hand over and the transport becomes writable: channel 1, channel 2 and the transport in one wake-up, both channel orders, two tunings); Connection::close while the channels are held back above the high-water mark (accepted messages must still go out); seqx backpressure as under C04.",
+ "C19": "virtual hosts whose names begin or end with a slash or a blank (%2Fprod, %2f%2f, prod%2F, %20v%20), also through two more loopback sessions.",
+ "C20": "oracle on the wire: what the I/O thread accepted from a channel before the connection's close point is written, in whole frames, once the client's last frame is.",
+}
+
+
 def main():
     hooks_commits = subprocess.run(["git", "-C", "/repo", "log", "--format=%h %s", "--grep=^verif"],
                                    stdout=subprocess.PIPE, text=True).stdout.strip().splitlines()
@@ -137,6 +154,10 @@ def main():
     for pid in ALL:
         if pid in CHECKS:
             cat, tech, text, note, ref, engine = CHECKS[pid]
+            if pid in ADDED_R11:
+                text = text + " Added in round 11: " + ADDED_R11[pid]
+                if pid in ("C04", "C18") and "seqx" not in engine:
+                    engine = "seqx+" + engine
             m["checks"].append({
                 "property_id": pid,
                 "quick_cmd": "./check %s quick" % pid,
